@@ -4,6 +4,7 @@ import (
 	"fmt"
 	"net"
 	"net/netip"
+	"strconv"
 )
 
 type Addr struct {
@@ -35,7 +36,8 @@ func (a Addr) Network() string {
 }
 
 func (a Addr) String() string {
-	return fmt.Sprintf("%s:%d", a.IP.String(), a.Port)
+	// JoinHostPort puts IPv6 hosts in brackets, which is the form UnmarshalText (net.SplitHostPort) accepts.
+	return net.JoinHostPort(a.IP.String(), strconv.Itoa(int(a.Port)))
 }
 
 func (a *Addr) UnmarshalText(x []byte) error {
